@@ -85,6 +85,14 @@ func IsExtraFunction(name string) bool {
 	return ok
 }
 
+// ReservedName is true for the names that are not looked up like variables: `self` and `info` are answered
+// by Environment.Get itself, and an extension function wins over any variable of that name (evalIdentifier).
+// A parameter or loop variable with such a name must therefore not be kept in a register: the register would
+// make the name mean the integer, unlike without registers.
+func ReservedName(name string) bool {
+	return name == "self" || name == "info" || IsExtraFunction(name)
+}
+
 // Add values to top level environment, e.g "pi" -> 3.14159...
 // or "printf(){print(sprintf(%s, args...))}".
 func AddIdentifier(name string, value Object) {
